@@ -1820,6 +1820,29 @@ func c20EmptyFile(c *Ctx, p *Prog) {
 				}
 			}
 		}
+		// ... or a boolean "saw a record" flag: false before the loop, set to true in it, never back to false
+		var flags []*ssa.Phi
+		for _, in := range lp.Header.Instrs {
+			phi, ok := in.(*ssa.Phi)
+			if !ok || !isBoolean(phi.Type()) {
+				continue
+			}
+			good, sets := true, false
+			for i, e := range phi.Edges {
+				k, isK := e.(*ssa.Const)
+				switch {
+				case e == ssa.Value(phi):
+				case lp.Blocks[lp.Header.Preds[i]] && isK && k.Value != nil && k.Value.String() == "true":
+					sets = true
+				case !lp.Blocks[lp.Header.Preds[i]] && isK && k.Value != nil && k.Value.String() == "false":
+				default:
+					good = false
+				}
+			}
+			if good && sets {
+				flags = append(flags, phi)
+			}
+		}
 		isCounter := func(v ssa.Value) bool {
 			for _, ph := range counters {
 				if v == ssa.Value(ph) {
@@ -1840,6 +1863,11 @@ func c20EmptyFile(c *Ctx, p *Prog) {
 		}
 		nonZeroAt := func(b *ssa.BasicBlock, isCount func(ssa.Value) bool) bool {
 			for _, f := range factsAt(b) {
+				for _, fl := range flags {
+					if f.Cond == ssa.Value(fl) && f.True {
+						return true
+					}
+				}
 				bo, ok := f.Cond.(*ssa.BinOp)
 				if !ok {
 					continue
